@@ -21,6 +21,11 @@ CLAIMED = {
     text='Circuit losses L = Re<phi|U(theta)|0> are differentiated exactly in the specification by the product rule in FORWARD mode over Z[w] (no reverse sweep in the spec; derivative matrices of rx/ry/rz/rzz/u3 and their controlled forms written out, controlled derivative = zero off the control subspace; the formulas are self-checked in TLC by the exact shift rule dL/dtheta = [L(theta+pi)-L(theta-pi)]/4). TLC simulates random parametrised circuits with plain, controlled, shared (same gate object re-appended) and placeholder parameter cells; each behaviour is built as a real Circuit/CircuitTorchWrapper model, backward() is run and every .grad entry and the flat gradient of hf_model_wrapper are compared with the exact values. The Knill-Laflamme inner product (forward and hand-written backward) is compared with the formal derivative of the sesquilinear form computed by TLC on Gaussian-integer code words.',
     note='Angles on the pi/2 grid (phases pi/4). NOT covered: Pade logm backward, PSD sqrt backward, losses of the variational models, a trigonometric derivative error that vanishes on the grid. Tolerance 1e-9.',
     technique='TLA+ forward-mode derivative spec over Z[w] + TLC simulation of parametrised circuits; behaviours replayed into torch autograd and compared'),
+ 'C05': dict(
+    cat='model_checking', ref='6/C05',
+    text='A calculus of how separable states are built (mixtures of product projectors with exact Gaussian-integer vectors and integer weights; closed under adding product terms, local unitaries, party permutations) is specified in TLA+; TLC simulates construction histories over dims (2,2),(2,3),(3,2),(3,3),(2,4),(2,2,2),(2,3,2) incl. computational-basis, repeated, nearly parallel and pure product terms, checking the class-closure and certificate invariants. Each constructed object is handed to every criterion of the library (is_ppt, is_generalized_ppt, reduction and swap witnesses, negativity, two-qubit concurrence/EOF/GME, symmetric and bosonic extension SDPs on a subset) and the recorded evaluations are validated by TLC against the contract: TLC itself establishes the provenance from the exact data (well-formed product mixture => SEP; Werner/isotropic with rational alpha => SEP or NPT by the exact threshold) and an evaluation event is enabled only if its result is allowed for that provenance (SEP: every verdict passes, every closed-form measure finite and zero; NPT families: PPT test fails, measures non-zero).',
+    note='Exact subfamily (components in -2..2); closed-form measures count as zero when |v|<=1e-6; SDP verdicts inherit the solver tolerance; not covered: Haar-random irrational product vectors.',
+    technique='TLA+ provenance calculus of separable states; TLC simulation of construction histories; TLC trace validation of recorded criterion evaluations against the contract'),
  'C07': dict(
     cat='model_checking', ref='6/C07',
     text='TLC derives the elementary gate tableaux from the dense gate matrices by conjugation over Z[i], generates the complete 1- and 2-qubit Clifford groups modulo phase by closure (24 and 11520 states = every (r,S) with S in Sp(2n,F2) and every phase vector) checking the phase-exact automorphism law and composition = sequential application in every state, and enumerates every interleaving of append/query/apply/export of the CliffordCircuit state machine up to a bounded length. Every group element is replayed through the real CliffordCircuit, apply_clifford_on_pauli, clifford_array_to_F2 and the state-vector simulator (U^dagger P U); every history is executed on a real object and the recorded trace is validated by TLC against the cache-free specification, so a query that does not reflect all appended gates is rejected.',
